@@ -464,14 +464,35 @@ def libVersion (s : Schema) (lib : Str) : Option Str :=
   | some (_, v) => some v
   | none => if lib = [] && s.header.withStandard ≠ [] then some s.header.withStandard else none
 
+/-- `value.split(",")[0]` of a text value (fix aa5708e): an inheritable string attribute is the comma-join
+over the tag and its ancestors ("score,score"); the nearest value is the library.  `True` is left as it is. -/
+def firstItem (v : AttrVal) : Str :=
+  match v with
+  | .flag => v.str
+  | .text t => (splitOn ',' t).head?.getD []
+
 /-- the library name `tag_is_deprecated_check` works with -/
 def libFor (s : Schema) (c : TagCtx) (t : Sec) (ie : IE) : Str :=
   match attrOf c t ie Key.InLibrary with
-  | some v => v.str
+  | some v =>
+    let l := firstItem v
+    if l = [] && s.header.withStandard = [] then s.header.library else l
   | none => if s.header.withStandard = [] then s.header.library else []
 
 /-- the library name `verify_tag_id` works with -/
 def idLib (c : TagCtx) (t : Sec) (ie : IE) : Str :=
+  match attrOf c t ie Key.InLibrary with
+  | some v => firstItem v
+  | none => []
+
+/-- `libFor` before fix aa5708e: the whole inherited value -/
+def libForOld (s : Schema) (c : TagCtx) (t : Sec) (ie : IE) : Str :=
+  match attrOf c t ie Key.InLibrary with
+  | some v => v.str
+  | none => if s.header.withStandard = [] then s.header.library else []
+
+/-- `idLib` before fix aa5708e: the whole inherited value ("score,score" below another library tag) -/
+def idLibOld (c : TagCtx) (t : Sec) (ie : IE) : Str :=
   match attrOf c t ie Key.InLibrary with
   | some v => v.str
   | none => []
@@ -623,18 +644,25 @@ def idOutOfRange (env : Env) (lib : Str) (n : Int) : Bool :=
   | some (lo, hi) => n < Int.ofNat lo || n > Int.ofNat hi
   | none => false
 
-/-- `HedIDValidator.verify_tag_id` -/
-def vHedId (env : Env) (c : TagCtx) (t : Sec) (ie : IE) (a : Str) : List IK :=
+/-- `HedIDValidator.verify_tag_id`, given the library name it works with -/
+def vHedIdLib (env : Env) (lib : Str) (t : Sec) (ie : IE) (a : Str) : List IK :=
   match getAttr a ie.2.attrs with
   | none => []
   | some .flag => [.pyRaises]
   | some (.text v) =>
-    let lib := idLib c t ie
     match pyInt (removePrefix hedPrefix v) with
     | none => [.hedIdInvalid]
     | some n =>
       (if idChanged env lib t ie.2.name n then [.hedIdInvalid] else []) ++
       (if idOutOfRange env lib n then [.hedIdInvalid] else [])
+
+/-- `HedIDValidator.verify_tag_id` -/
+def vHedId (env : Env) (c : TagCtx) (t : Sec) (ie : IE) (a : Str) : List IK :=
+  vHedIdLib env (idLib c t ie) t ie a
+
+/-- `verify_tag_id` before fix aa5708e -/
+def vHedIdOld (env : Env) (c : TagCtx) (t : Sec) (ie : IE) (a : Str) : List IK :=
+  vHedIdLib env (idLibOld c t ie) t ie a
 
 def validate (env : Env) (s : Schema) (c : TagCtx) (t : Sec) (ie : IE) (a : Str) : V → List IK
   | .itemExists target => vItemExists s c t ie a target
